@@ -80,7 +80,8 @@ Definition b64_val (c : N) : option N :=
 
 (* binascii.a2b_base64(s, strict_mode=True) as CPython 3.13 implements it (base64.b64decode(s, validate=True)):
    quad = position in the current 4-character group, left = pending bits, pads = '=' seen in this group,
-   pstarted = a '=' was seen.  Note: the unused low bits of the last data character are NOT checked. *)
+   pstarted = a '=' was seen.  Note: the unused low bits of the last data character are NOT checked.
+   (6-bit arithmetic is written with shifts / masks: cheap under vm_compute; values are bytes) *)
 Fixpoint b64_loop (s : bytes) (quad left pads : N) (pstarted : bool) (acc : bytes) : option bytes :=
   match s with
   | [] => if quad =? 0 then Some (rev acc) else None
@@ -98,9 +99,9 @@ Fixpoint b64_loop (s : bytes) (quad left pads : N) (pstarted : bool) (acc : byte
         | Some v =>
             if pstarted then None
             else if quad =? 0 then b64_loop r 1 v 0 false acc
-            else if quad =? 1 then b64_loop r 2 (v mod 16) 0 false ((left * 4 + v / 16) :: acc)
-            else if quad =? 2 then b64_loop r 3 (v mod 4) 0 false ((left * 16 + v / 4) :: acc)
-            else b64_loop r 0 0 0 false ((left * 64 + v) :: acc)
+            else if quad =? 1 then b64_loop r 2 (N.land v 15) 0 false (N.lor (N.shiftl left 2) (N.shiftr v 4) :: acc)
+            else if quad =? 2 then b64_loop r 3 (N.land v 3) 0 false (N.lor (N.shiftl left 4) (N.shiftr v 2) :: acc)
+            else b64_loop r 0 0 0 false (N.lor (N.shiftl left 6) v :: acc)
         end
   end.
 Definition b64decode (s : bytes) : option bytes := b64_loop s 0 0 0 false [].
@@ -110,10 +111,11 @@ Definition b64_chr (v : N) : N :=
 Fixpoint b64encode (b : bytes) : bytes :=
   match b with
   | [] => []
-  | [x] => [b64_chr (x / 4); b64_chr ((x mod 4) * 16); 61; 61]
-  | [x; y] => [b64_chr (x / 4); b64_chr ((x mod 4) * 16 + y / 16); b64_chr ((y mod 16) * 4); 61]
+  | [x] => [b64_chr (N.shiftr x 2); b64_chr (N.shiftl (N.land x 3) 4); 61; 61]
+  | [x; y] => [b64_chr (N.shiftr x 2); b64_chr (N.lor (N.shiftl (N.land x 3) 4) (N.shiftr y 4)); b64_chr (N.shiftl (N.land y 15) 2); 61]
   | x :: y :: z :: r =>
-      b64_chr (x / 4) :: b64_chr ((x mod 4) * 16 + y / 16) :: b64_chr ((y mod 16) * 4 + z / 64) :: b64_chr (z mod 64)
+      b64_chr (N.shiftr x 2) :: b64_chr (N.lor (N.shiftl (N.land x 3) 4) (N.shiftr y 4))
+      :: b64_chr (N.lor (N.shiftl (N.land y 15) 2) (N.shiftr z 6)) :: b64_chr (N.land z 63)
       :: b64encode r
   end.
 
